@@ -189,6 +189,9 @@ def monitor(op_line, out_line, st):
         bump('runs_without_stop' if not (op.nat('stopat') or op.nat('stopcb')) else 'runs_finished_before_stop')
         return outputs_monitor(op, op_line, out_line, r, st)
     bump('stops_landed')
+    via_inner = op.nat('viainner', 0) == 1
+    if via_inner:
+        bump('via_inner_stops_landed'); bump('via_inner_alm_' + r['status'])
     # ---- the inner solve in flight ----------------------------------------------------------------
     finding = None
     j = next((k for k, s in enumerate(sol) if s['first'] <= t0 <= s['last']), None)
@@ -224,9 +227,15 @@ def monitor(op_line, out_line, st):
         bump('later_solve_status_' + s['status'])
     # ---- strict accounting: nothing after the inner solve of the outer iteration in flight ----------------
     allowed = 0 if j is not None else 1          # landed in an ALM-level call: that iteration's inner solve
-    if later and j is None:
+    if later and j is None and not via_inner:
         bump('stop_survived_to_next_inner_solve')
-    if len(later) > allowed:
+    if via_inner:
+        # ALM's own flag is clear: a request hidden by a status that outranks Interrupted (Converged at the same
+        # head) is invisible to ALM, which rightly goes on; every inner solve started afterwards still sees the inner
+        # flag (0 iterations, first-poll bound: checked above) and none may follow one that returned Interrupted
+        # (checked above).  The strict count below is a statement about alm.stop() only.
+        bump('via_inner_later_solves_%d' % min(len(later), 3))
+    elif len(later) > allowed:
         sts = [sol[k]['status'] for k in later]
         inflight = (f'inner solve #{j} in flight returned {sol[j]["status"]}' if j is not None
                     else 'it landed in a call of the ALM loop itself')
@@ -236,7 +245,7 @@ def monitor(op_line, out_line, st):
                    f'further inner solve may be started', KEY_CHAIN)
     last_seen = sol[j] if j is not None else (sol[later[0]] if later else None)
     if last_seen is not None and last_seen['status'] != 'Interrupted' and not finding:
-        bump('inner_hid_request_alm_' + r['status'])
+        bump(('via_inner_hid_request_alm_' if via_inner else 'inner_hid_request_alm_') + r['status'])
     mm = outputs_monitor(op, op_line, out_line, r, st)
     if mm:
         return mm
@@ -299,6 +308,11 @@ def sweep_ops(rng, exe, solver, n_bases, max_ticks=260):
         for jcb in range(1, ncb + 1):
             o = S.Op(base); o['stopcb'] = str(jcb)
             ops.append(o.line())
+        # the same sweep with the request made on the wrapped inner solver (alm.inner_solver.stop()): ALM's own flag
+        # stays clear, ALM must propagate the inner status Interrupted without starting another inner solve
+        for t in range(1, r['ticks'] + 1):
+            o = S.Op(base); o['stopat'] = str(t); o['viainner'] = '1'
+            ops.append(o.line())
         bump('sweep_base_runs')
     return ops
 
@@ -346,6 +360,8 @@ def alm_stage(rep, broken, tier):
         rep.note(f'ALM monitor coverage [{solver}]: ' + ', '.join(f'{k}={v}' for k, v in sorted(per[solver].items())))
         if per[solver].get('alm_status_Interrupted', 0) == 0:
             broken.append(f'[alm/{solver}] stop injection never produced an Interrupted ALM run')
+        if per[solver].get('via_inner_alm_Interrupted', 0) == 0:
+            broken.append(f'[alm/{solver}] no Interrupted ALM run with the request made on the wrapped inner solver')
         if per[solver].get('stop_survived_to_next_inner_solve', 0) == 0:
             broken.append(f'[alm/{solver}] no stop request landed in a call of the ALM loop itself '
                           f'(eval_proj_multipliers), where only the inner solve started next can see it')
